@@ -214,6 +214,10 @@ namespace adept {
 	}
       }
 
+      // The bracketing phase counts towards the iteration limit,
+      // otherwise it need never end (e.g. a cost function that keeps
+      // decreasing with a limited step size)
+      --iterations_remaining;
     }
 
     // Second step: reduce the bounds until we get sufficiently close
